@@ -1,7 +1,7 @@
 from contracts.weakrefs import InsertOnce, GetCleanRef, RemoveNoneReferents
-from contracts.identity import IdentifierHistories, WorkspaceRegister
+from contracts.identity import IdentifierHistories, WorkspaceRegister, CopyIdentifiersByKind
 from contracts.copying import CopyPropertyGroups
-CONTRACTS = [InsertOnce, GetCleanRef, RemoveNoneReferents, WorkspaceRegister, CopyPropertyGroups, IdentifierHistories]
+CONTRACTS = [InsertOnce, GetCleanRef, RemoveNoneReferents, WorkspaceRegister, CopyPropertyGroups, IdentifierHistories, CopyIdentifiersByKind]
 
 MANIFEST = {
     "category": "proof",
